@@ -244,6 +244,8 @@ class Executor:
 
     def operand(self, path, o):
         o = o.strip()
+        if o.startswith("no_retag "):
+            o = o[len("no_retag "):]
         if o.startswith("copy ") or o.startswith("move "):
             return self.read_place(path, o[5:])
         if o.startswith("const "):
@@ -252,6 +254,8 @@ class Executor:
 
     def rvalue(self, path, r):
         r = r.strip()
+        if r.startswith("no_retag "):
+            r = r[len("no_retag "):]
         m = re.match(r"^((?:copy|move|const) .+) as (.+?) \((\w+)\)$", r)
         if m and balanced(m.group(1)):
             return ("op", "cast:" + m.group(3), (self.operand(path, m.group(1)),))
